@@ -73,9 +73,12 @@ class ChannelItem(EFLRItem, DimensionedItem):
         self.minimum_value = NumericAttribute('minimum_value', representation_code=RepC.FDOUBL, multivalued=True)
         self.maximum_value = NumericAttribute('maximum_value', representation_code=RepC.FDOUBL, multivalued=True)
 
+        if cast_dtype is not None:
+            ReprCodeConverter.validate_numpy_dtype(cast_dtype)  # (rejected before the item is added to its parent set)
+        self._dataset_name: Union[str, None] = dataset_name
+
         super().__init__(name, parent=parent, **kwargs)
 
-        self._dataset_name: Union[str, None] = dataset_name
         self._set_cast_dtype(cast_dtype)
 
     @property
